@@ -64,9 +64,11 @@ PollOutcome(c) ==
      THEN Fin(c, [res |-> "err", kind |-> "service", val |-> gid[c]]) /\ UNCHANGED <<attempt, until, lastGid, conn>>   \* other errors come back unchanged
      ELSE IF cfg.max >= 0 /\ attempt[c] + 1 > cfg.max
      THEN Fin(c, [res |-> "err", kind |-> "maxattempts:" \o ToString(attempt[c] + 1), val |-> gid[c]])
-          /\ attempt' = [attempt EXCEPT ![c] = @ + 1] /\ conn' = "any" /\ UNCHANGED <<until, lastGid>>
+          \* the failure that ends the request was a connection failure too: a lone request does not leave "connected" behind
+          /\ attempt' = [attempt EXCEPT ![c] = @ + 1] /\ conn' = (IF Active = {c} THEN "notconnected" ELSE "any") /\ UNCHANGED <<until, lastGid>>
      ELSE IF cfg.pol = "none"
-     THEN Fin(c, [res |-> "err", kind |-> "connfailed", val |-> gid[c]]) /\ attempt' = [attempt EXCEPT ![c] = @ + 1] /\ conn' = "any" /\ UNCHANGED <<until, lastGid>>
+     THEN Fin(c, [res |-> "err", kind |-> "connfailed", val |-> gid[c]]) /\ attempt' = [attempt EXCEPT ![c] = @ + 1]
+          /\ conn' = (IF Active = {c} THEN "notconnected" ELSE "any") /\ UNCHANGED <<until, lastGid>>
      ELSE \E d \in Delays(attempt[c] + 1) :
           /\ st' = [st EXCEPT ![c] = "sleeping"] /\ attempt' = [attempt EXCEPT ![c] = @ + 1]
           /\ until' = [until EXCEPT ![c] = now + d] /\ lastGid' = [lastGid EXCEPT ![c] = gid[c]]
